@@ -573,4 +573,46 @@ theorem tie_httpParseParts :
       ["return r.ContentLength > 0 && strings.Contains(r.Header.Get(header.ContentType), header.ApplicationJson)"] := by
   refine ⟨?_, ?_, ?_, ?_, ?_⟩ <;> decide
 
+/-! ### round 5: keys with dots — `readKeys`, `getValue`, `getValueWithChainedKeys`, `WithOpaqueKeys` -/
+
+/-- the effects of `readKeys` before it touches the package-level cache for the first time -/
+def beforeCache (l : List String) : List String := l.takeWhile (fun s => !(s.startsWith "cache-"))
+
+/-- `readKeys(key, opaque)`, order of effects: the opaque flag is tested FIRST and answers with the literal key without
+touching `cacheKeys` (`Model.lookupKey`: `c.opaqueKeys` ⇒ `getKey key m`); only the non-opaque path reads the cache, splits
+at `delimiter` on a miss (`Model.fieldsDot`, `tie_separators`: `delimiter = '.'`) and writes the split back under the same
+key.  A cache consulted before the flag (seeded C08-8) shares one entry between literal and chained lookups. -/
+theorem tie_readKeys :
+    readKeysEffects =
+      ["test opaque", "return-literal []string{key}", "lock", "cache-read cacheKeys[key]", "unlock", "test ok",
+       "return keys", "split key", "separator { return c == delimiter }", "lock", "cache-write cacheKeys[key]", "unlock",
+       "return keys"]
+    ∧ beforeCache readKeysEffects = ["test opaque", "return-literal []string{key}", "lock"]
+    ∧ (readKeysEffects.filter (fun s => s.startsWith "cache-write")).length = 1
+    ∧ readKeysShape =
+      ["if opaque {", "return", "}", "call cacheKeysLock.Lock", "call cacheKeysLock.Unlock", "if ok {", "return", "}",
+       "func{", "return", "}", "call cacheKeysLock.Lock", "mapset cacheKeys", "call cacheKeysLock.Unlock", "return"] := by
+  refine ⟨?_, ?_, ?_, ?_⟩ <;> decide +kernel
+
+/-- `getValue` forwards key and flag to `readKeys` and the valuer and the keys to `getValueWithChainedKeys`; both call sites hand
+it the unmarshaler's own `opaqueKeys` option; `WithOpaqueKeys` sets exactly that option (`Cfg.opaqueKeys`) -/
+theorem tie_getValue :
+    getValueCalls = ["call readKeys(key, opaque)", "return getValueWithChainedKeys(m, keys)"]
+    ∧ getValueSites = ["getValue(m, fieldKey, u.opts.opaqueKeys)", "getValue(valuer, canonicalKey, u.opts.opaqueKeys)"]
+    ∧ withOpaqueKeysStmts = ["opt.opaqueKeys = true"] := by
+  refine ⟨?_, ?_, ?_⟩ <;> decide
+
+/-- `getValueWithChainedKeys`: no segment ⇒ absent; one segment ⇒ the valuer's own answer; more ⇒ the first segment through the
+valuer, and only if that is an object the rest through `recursiveValuer{current: the object, parent: the valuer}`
+(`Model.dottedLookup` / `chainedLookup` / `recLookup`: the object found so far first, then the enclosing ones), else absent -/
+theorem tie_chainedKeys :
+    chainedKeysShape =
+      ["switch len(keys) {", "case 0:", "return", "case 1:", "call m.Value", "return", "default:", "call m.Value",
+       "if ok {", "if ok {", "call mapValuer", "call getValueWithChainedKeys", "return", "}", "}", "return", "}"]
+    ∧ chainedKeysCalls =
+      ["call len(keys)", "return nil, false", "call m.Value(keys[0])", "return v, ok", "call m.Value(keys[0])",
+       "return getValueWithChainedKeys(recursiveValuer{ current: mapValuer(nextm), parent: m, }, keys[1:])",
+       "return nil, false"] := by
+  refine ⟨?_, ?_⟩ <;> decide
+
 end GoZero.C08.Tie
